@@ -109,6 +109,9 @@ type Chan struct {
 	onEvent  func(kind string, data []byte, err error)
 }
 
+// RecvInProgress reports whether a Recv call has been entered and has not returned.
+func (c *Chan) RecvInProgress() bool { return c.recvIn.Load() > 0 }
+
 // Wrap wraps inner.
 func Wrap(name string, inner channel.Channel, yield int, faults []Fault) *Chan {
 	return &Chan{Name: name, inner: inner, Yield: yield, faults: faults}
